@@ -37,6 +37,9 @@ pub struct Knobs {
     pub n_labels: usize,
     #[serde(default)]
     pub n_keys: usize,
+    /// some uncommitted transactions end in a commit that must fail (oversized value)
+    #[serde(default)]
+    pub failing_commits: bool,
 }
 
 impl Knobs {
@@ -90,6 +93,7 @@ pub fn gen_knobs(rng: &mut Rng, avoid: &[String]) -> Knobs {
         index_universe: false,
         n_labels: 0,
         n_keys: 0,
+        failing_commits: false,
     }
 }
 
@@ -253,6 +257,12 @@ pub fn gen_history_from(rng: &mut Rng, k: &Knobs, start: &Model) -> Vec<Op> {
                     m = cand;
                 } else {
                     cx.no_more_compact = flag_before;
+                    if k.failing_commits && !cand.g.nodes.is_empty() && rng.chance(0.4) {
+                        let live: Vec<u32> = cand.g.nodes.keys().copied().collect();
+                        let target = *rng.pick(&live);
+                        out.push(Op::FailingTxn { ops, target });
+                        continue;
+                    }
                 }
                 out.push(Op::Txn { ops, commit });
             }
@@ -585,6 +595,21 @@ impl Runner {
                     drop(tx);
                 }
                 Ok(())
+            }
+            Op::FailingTxn { ops, target } => {
+                let mut cand = self.model.clone();
+                let engine = self.engine.as_ref().expect("engine open");
+                let mut tx = engine.begin_write();
+                for t in ops {
+                    apply_top(&mut tx, t, &cand)?;
+                    cand.apply(t);
+                }
+                // one value above the 1 MiB log-record limit: logging the transaction is refused
+                tx.set_node_property(*target, "k0".into(), ndb_storage::property::PropertyValue::String("x".repeat(1_200_000)));
+                match tx.commit() {
+                    Err(_) => Ok(()),
+                    Ok(()) => Err("EXPECTED-FAILURE-MISSING: commit with a value above the log-record limit succeeded".into()),
+                }
             }
             Op::Compact => self.engine().compact().map_err(|e| format!("compact: {e}")),
             Op::CreateIndex { label, prop } => {
